@@ -51,6 +51,18 @@ def units(tier):
         add("R+B child0-native", [("B", "task"), ("R", "task")], env=("child0",), J=2)
         add("R+B group-cancel T=2", [("R", "task"), ("B", "task")], env=("group",), T=2, J=2)
     if not quick:
+        # the full behaviour x behaviour matrix (two children) under each kind of cancellation
+        behs = ["R", "E", "B", "C", "S", "X", "G", "L", "W", "N"]
+        for b1 in behs:
+            for b2 in behs:
+                for env in ((), ("group",), ("outer",)):
+                    if not env and (b1 in "BCSXW" or b2 in "BCSXW") and "E" not in (b1, b2):
+                        continue  # nothing would ever end a blocker
+                    us.append({"name": "matrix %s+%s env=%s" % (b1, b2, ",".join(env) or "-"), "fn": tg_scn.scn,
+                               "params": {"props": [PROP], "children": [(b1, "task"), (b2, "soon")], "env": env, "T": 1, "J": 2}, "budget_s": 900})
+        for b3 in ("R", "E", "C"):
+            us.append({"name": "three R+B+%s group-cancel T=2" % b3, "fn": tg_scn.scn,
+                       "params": {"props": [PROP], "children": [("R", "task"), ("B", "soon"), (b3, "task")], "env": ("group",), "T": 2, "J": 1}, "budget_s": 1500})
         # every quick shape again with longer sleeps / more cycle offsets, and on the eager task factory
         base = [u for u in us if u["params"].get("T", 1) == 1 and not u["params"].get("eager")]
         for u in base:
